@@ -30,9 +30,10 @@ EvOK(tab, mod, ev) ==
 Why(tab, mod, ev) ==
   CASE ev.k = "ctx" -> <<"ctx", (IF HeaderOf(tab, <<ev.l, ev.c>>) = {} THEN "body" ELSE "header"),
                          Shape(tab, Traces[tid][1].lams, <<ev.l, ev.c>>, ev.got), RefCtx(tab, <<ev.l, ev.c>>)>>
-    [] ev.k = "dchain" -> <<"parent-chain", "def", RefChain(tab, ev.row)>>
-    [] ev.k = "nchain" -> <<"parent-chain", "name", RefNameChain(tab, <<ev.l, ev.c>>, ev.own)>>
-    [] ev.k = "full" -> <<"full-name", (IF ev.got = <<>> THEN "none" ELSE "wrong"), RefFull(tab, mod, ev.row)>>
+    \* (kept short: TLC wraps long values over several lines)
+    [] ev.k = "dchain" -> <<"parent-chain", "def", Len(RefChain(tab, ev.row))>>
+    [] ev.k = "nchain" -> <<"parent-chain", "name", Len(RefNameChain(tab, <<ev.l, ev.c>>, ev.own))>>
+    [] ev.k = "full" -> <<"full-name", (IF ev.got = <<>> THEN "none" ELSE "wrong"), Len(RefFull(tab, mod, ev.row))>>
     [] OTHER -> <<"unknown-event">>
 
 TInit == /\ tid \in 1..Len(Traces) /\ l = 2 /\ bad = FALSE /\ prog = <<>> /\ unit = 0
